@@ -85,12 +85,12 @@ def generate(ctx):
             if kind == "new_nest":
                 kind = "assign"
             labels, label_kind = corner, "flat_index_equals_index"
-        nf = NestedFrame({"x": list(range(n)), "y": [rng.choice(["p", "q"]) for _ in range(n)]}, index=labels)
+        nf = NestedFrame({"x": list(range(n)), "y": [rng.choice(["p", "q"]) for _ in range(n)]}, index=gen.as_index(labels, label_kind))
         NEST = "my n" if i % 5 == 3 else "n"        # a nest whose name needs back-ticks in the program
         nq = NEST if c07.is_ident(NEST) else f"`{NEST}`"
-        nf[NEST] = pd.Series(arr, index=labels, name=NEST)
+        nf[NEST] = pd.Series(arr, index=nf.index, name=NEST)
         other_rows = gen.gen_rows(rng, [("q", "int64")], n, max_len=2)
-        nf["other"] = pd.Series(type(arr)(pa.array(other_rows, type=gen.struct_type([("q", "int64")]))), index=labels, name="other")
+        nf["other"] = pd.Series(type(arr)(pa.array(other_rows, type=gen.struct_type([("q", "int64")]))), index=nf.index, name="other")
         rows = fo.rows_rm(inp["ca"])
         numeric = [(nm, t) for nm, (_, t) in zip(names, schema) if t in ("int64", "double")]
         quote = rng.choice(["none", "none", "field"])
